@@ -32,6 +32,53 @@ def has_token(r):
     return None
 
 
+def closed_rearms_rule(tab, rep, rule):
+    """connectionLost after our own close arms the idle-hold timer on every path where automatic start is allowed."""
+    for state in ORDER:
+        rows = [r for r in tab.get('TCP_CLOSED', state) if allow_of(r) is not False]
+        key = 'TCP_CLOSED@%s' % state
+        bad = [r for r in rows if r.timer_final('idle_hold') != 'armed' and not r.connects()]
+        extra = sorted(set(t for r in rows for t, b in r.guards if t != ALLOW_ATOM))
+        if not rows:
+            rep.bad(rule, key, file='yabgp/core/protocol.py', found='no path with automatic start allowed',
+                    key=key)
+        elif bad:
+            rep.bad(rule, key, file=common.row_file(bad[0]), line=common.row_line(bad[0]),
+                    func='BGPPeering.connection_closed',
+                    found='connectionLost after our close does not arm the idle-hold timer (guards: %s)' %
+                          bad[0].guard_text(), expected='automatic_start(idle_hold=True)', key=key,
+                    path=bad[0].describe())
+        else:
+            rep.ok(rule, key, file='yabgp/core/factory.py', line=common.row_line(rows[0]),
+                   found='idle-hold armed on %d path(s); other guards: %s' % (len(rows), extra or 'none'))
+
+
+def session_hold_time_rule(tab, rep, rule):
+    """The hold time an accepted OPEN leaves in the FSM is min(configured value, value proposed in this OPEN)."""
+    n_acc = 0
+    bad_e = None
+    for r in tab.get('WIRE', 'OpenSent'):
+        if r.wire['cls'] == 'OPEN' and r.final == 'OpenConfirm':
+            n_acc += 1
+            h = r.field('fsm', 'hold_time')
+            good = isinstance(h, Sym) and h.origin and h.origin[0] == 'min' and \
+                any(a.desc().startswith(('CONF.', 'cfg.', 'oslo_config')) for a in h.origin[1]) and \
+                any(r.st.syminfo.get(a.desc(), (None,))[0] == '!BHHIB' for a in h.origin[1])
+            if not good and bad_e is None:
+                bad_e = (r, h)
+    if bad_e:
+        r, h = bad_e
+        rep.bad(rule, 'session-hold-time', file='yabgp/core/protocol.py', line=common.row_line(r),
+                func='BGP.negotiate_hold_time', found='session hold time = %s: a value left in the FSM by an earlier '
+                'session decides this one (an earlier OPEN with hold time 1/2 then blocks every later OPEN)' % cval(h),
+                expected='min(configured hold time, peer proposal)', key='session-hold-time', path=r.describe())
+    elif n_acc:
+        rep.ok(rule, 'session-hold-time', file='yabgp/core/protocol.py', found='%d accepting paths' % n_acc)
+    else:
+        rep.undecided(rule, 'session-hold-time', found='no accepting path')
+
+
+
 def check(prog, rep, tier):
     rep.rule('R02.a', 'restart token: every non-operator path that ends in Idle (or consumes a pending '
                       'restart while in Idle) leaves a reconnection pending: idle-hold timer armed, TCP '
@@ -42,6 +89,8 @@ def check(prog, rep, tier):
                       'and manual stop')
     rep.rule('R02.e', 'no earlier session changes what the next one negotiates: the session hold time is '
                       'min(configured value, value proposed in this OPEN), never a value left by an earlier session')
+    rep.rule('R02.i', 'the timer primitives behind the restart chain (BGPTimer.reset / cancel / active) keep the handle of '
+                      'the pending call and call the FSM callback directly')
     rep.rule('R02.h', 'stays up (necessary conditions): in OpenConfirm / Established no hold or keepalive timer is armed '
                       'with a value that can be 0, and a late connectionLost of a replaced connection leaves the '
                       'tracked connection and the state alone')
@@ -117,23 +166,7 @@ def check(prog, rep, tier):
     rep.floor('R02.a', 'paths to Idle checked', nchk, 150)
 
     # ---------------------------------------------------------------- R02.c
-    for state in ORDER:
-        rows = [r for r in tab.get('TCP_CLOSED', state) if allow_of(r) is not False]
-        key = 'TCP_CLOSED@%s' % state
-        bad = [r for r in rows if r.timer_final('idle_hold') != 'armed' and not r.connects()]
-        extra = sorted(set(t for r in rows for t, b in r.guards if t != ALLOW_ATOM))
-        if not rows:
-            rep.bad('R02.c', key, file='yabgp/core/protocol.py', found='no path with automatic start allowed',
-                    key=key)
-        elif bad:
-            rep.bad('R02.c', key, file=common.row_file(bad[0]), line=common.row_line(bad[0]),
-                    func='BGPPeering.connection_closed',
-                    found='connectionLost after our close does not arm the idle-hold timer (guards: %s)' %
-                          bad[0].guard_text(), expected='automatic_start(idle_hold=True)', key=key,
-                    path=bad[0].describe())
-        else:
-            rep.ok('R02.c', key, file='yabgp/core/factory.py', line=common.row_line(rows[0]),
-                   found='idle-hold armed on %d path(s); other guards: %s' % (len(rows), extra or 'none'))
+    closed_rearms_rule(tab, rep, 'R02.c')
     rows = [r for r in tab.get('T_idle_hold', 'Idle') if allow_of(r) is not False]
     bad = [r for r in rows if not r.connects() or r.final != 'Connect']
     if not rows or bad:
@@ -178,6 +211,10 @@ def check(prog, rep, tier):
         rep.ok('R02.c', 'close-marks-disconnected', file='yabgp/core/protocol.py',
                found='%d closing cells mark the protocol as disconnected' % len(seen_c))
 
+    # ---------------------------------------------------------------- R02.i: the timers the restart chain relies on
+    from .c03 import timer_shape
+    timer_shape(prog, rep, rule='R02.i')
+
     # ---------------------------------------------------------------- R02.h: stays up
     # two structural conditions of "stays up while the peer cooperates": nothing the cooperative peer sends arms a
     # timer with 0 seconds (it would fire at once and tear the session down), and the close report of an earlier
@@ -211,27 +248,7 @@ def check(prog, rep, tier):
                 rep.ok('R02.g', key, file='yabgp/core/fsm.py', line=common.row_line(rows[0]))
 
     # ---------------------------------------------------------------- R02.e
-    n_acc = 0
-    bad_e = None
-    for r in tab.get('WIRE', 'OpenSent'):
-        if r.wire['cls'] == 'OPEN' and r.final == 'OpenConfirm':
-            n_acc += 1
-            h = r.field('fsm', 'hold_time')
-            good = isinstance(h, Sym) and h.origin and h.origin[0] == 'min' and \
-                any(a.desc().startswith(('CONF.', 'cfg.', 'oslo_config')) for a in h.origin[1]) and \
-                any(r.st.syminfo.get(a.desc(), (None,))[0] == '!BHHIB' for a in h.origin[1])
-            if not good and bad_e is None:
-                bad_e = (r, h)
-    if bad_e:
-        r, h = bad_e
-        rep.bad('R02.e', 'session-hold-time', file='yabgp/core/protocol.py', line=common.row_line(r),
-                func='BGP.negotiate_hold_time', found='session hold time = %s: a value left in the FSM by an earlier '
-                'session decides this one (an earlier OPEN with hold time 1/2 then blocks every later OPEN)' % cval(h),
-                expected='min(configured hold time, peer proposal)', key='session-hold-time', path=r.describe())
-    elif n_acc:
-        rep.ok('R02.e', 'session-hold-time', file='yabgp/core/protocol.py', found='%d accepting paths' % n_acc)
-    else:
-        rep.undecided('R02.e', 'session-hold-time', found='no accepting path')
+    session_hold_time_rule(tab, rep, 'R02.e')
 
     # ---------------------------------------------------------------- R02.d
     allowed = {'__init__', 'manual_start', 'manual_stop'}
